@@ -11,6 +11,7 @@ pub fn cfg_by_name(name: &str) -> GenCfg {
         "strict" => GenCfg::strict(),
         "full" => GenCfg::full(),
         "shadow" => GenCfg { shadowing: true, ..GenCfg::strict() },
+        "stress" => GenCfg { shadowing: true, scope_stress: true, max_decls: 12, ..GenCfg::strict() },
         "loose" => GenCfg {
             loose_ranges_as_content: true,
             loose_op_as_plain: true,
@@ -69,6 +70,40 @@ pub fn dev_gen(args: &[String]) -> i32 {
     println!("\nverdicts:");
     for (k, v) in verdicts {
         println!("{v:8}  {k}");
+    }
+    0
+}
+
+/// Distribution of the expansion estimate against the time the pipeline takes.
+pub fn dev_expansion(args: &[String]) -> i32 {
+    let cfg = cfg_by_name(args.first().map(|s| s.as_str()).unwrap_or("strict"));
+    let n: u64 = args.get(1).and_then(|s| s.parse().ok()).unwrap_or(1000);
+    let seed: u64 = args.get(2).and_then(|s| s.parse().ok()).unwrap_or(1);
+    let src = TapeSource::new(seed, 1600);
+    crate::engine::install_panic_hook();
+    let mut buckets: BTreeMap<u32, (u64, f64)> = BTreeMap::new();
+    for i in 0..n {
+        let mut t = Tape::new(src.tape(i));
+        let (prog, _) = Gen::new(&mut t, cfg.clone()).program_unbounded();
+        let est = expansion_estimate(&prog);
+        let b = if est.is_finite() { (est.max(1.0).log10() * 2.0) as u32 } else { 99 };
+        let secs = if est < 3e6 {
+            let sources = to_sources(&render_plain(&prog));
+            let t0 = std::time::Instant::now();
+            let _ = crate::engine::catch(|| pipeline(&sources, None));
+            t0.elapsed().as_secs_f64()
+        } else {
+            -1.0
+        };
+        let e = buckets.entry(b).or_insert((0, 0.0));
+        e.0 += 1;
+        if secs > e.1 {
+            e.1 = secs;
+        }
+    }
+    println!("log10(estimate)*2  cases  max pipeline seconds");
+    for (b, (c, s)) in buckets {
+        println!("{:6.1} {c:8} {s:10.4}", b as f64 / 2.0);
     }
     0
 }
